@@ -30,6 +30,14 @@ type cfg struct {
 	tf                 string // transform: nil | id | scale | perm
 	dec, enc           bool
 	batched            bool // CKKS: input ciphertext IsBatched
+	outChain           string // masked transforms: name of the output parameters' chain ("" = same parameters)
+	outVia             string // CKKS: how the switching protocol is obtained: "new" (constructor) | "with" (WithParams)
+	lambda             int    // CKKS: security parameter given to GetMinimumLevelForRefresh (0 = 128)
+}
+
+// outChains are the output parameter sets of the parameter-switching masked transforms.
+var outChains = map[string]mp.Chain{
+	"mid": mp.ChainMid, "mixed": mp.ChainMixed, "ck40": mp.ChainCK40, "ck40x": mp.ChainCK40x, "ck40n5": mp.ChainCK40N5, "ck25n4": mp.ChainCK25N4,
 }
 
 func (k cfg) name() string {
@@ -42,6 +50,12 @@ func (k cfg) name() string {
 	}
 	if k.proto == "bgv-transform" || k.proto == "ckks-transform" {
 		s += fmt.Sprintf("/f=%s/dec=%v/enc=%v/batched=%v", k.tf, k.dec, k.enc, k.batched)
+	}
+	if k.outChain != "" {
+		s += fmt.Sprintf("/out=%s/%s", k.outChain, k.outVia)
+	}
+	if k.lambda != 0 {
+		s += fmt.Sprintf("/lambda=%d", k.lambda)
 	}
 	return s
 }
@@ -126,10 +140,17 @@ func expect(tier string) []string {
 		"parties=1", "parties=2", "parties=3", "sigma=0", "sigma=1024", "sigma=1.048576e+06", "t=97", "t=65537", "ntt=true", "ntt=false", "lin=0", "lin=>0",
 		"smudge=ks", "smudge=pcks", "smudge=bgv-e2s", "smudge=bgv-s2e", "smudge=ckks-e2s", "smudge=ckks-s2e",
 		"transform=id/dec=true/enc=true", "transform=scale/dec=true/enc=true", "transform=perm/dec=true/enc=true", "transform=perm/dec=false/enc=false", "transform=scale/dec=true/enc=false", "transform=scale/dec=false/enc=true",
+		"instances=copies-of-party0", "instances=all-constructed", "instances=chain-of-copies",
+		"history=first-use", "history=after-run-at-level-0", "history=after-run-at-max-level", "history=after-run-with-other-keys",
+		"merge-variant=stream-first-1byte", "merge-variant=stream-second-split5",
+		"chain=midci", "chain=mixedci", "chain=ck40ci", "chain=ck25ci", "ckks-ring=conjugate-invariant",
+		"params-switch=bgv/mixed->mid", "params-switch=ckks/new/N16->N16", "params-switch=ckks/with/N16->N16", "params-switch=ckks/new/N16->N32", "params-switch=ckks/with/N16->N32",
+		"params-switch=ckks/new/N32->N16", "params-switch=ckks/with/N32->N16", "ckks-lambda=128", "ckks-lambda=64", "ckks-lambda=160",
+		"refresh-share-smudging=both-halves", "parties=4", "parties=5", "parties=8",
 		"ckks-flags=rejected", "ckks-minlevel=at-minimum", "ckks-minlevel=no-slack", "ckks-minlevel=below-minimum-rejected-or-correct",
 	}
 	if tier == "thorough" {
-		e = append(e, "parties=4", "parties=8")
+		e = append(e, "parties=6", "parties=7")
 	}
 	return e
 }
